@@ -56,6 +56,7 @@ def main():
     ap.add_argument("prop")
     ap.add_argument("--needs", default="")
     ap.add_argument("--source", default="sub-agent given only the property text and a scratch worktree")
+    ap.add_argument("--detect-only", action="store_true", help="reuse the confirmation recorded in seeded/<id>/meta.json; only re-run the checks")
     a = ap.parse_args()
     src = Path(a.src)
     patch = src / "patch.diff"
@@ -69,7 +70,13 @@ def main():
     wt = Path(tempfile.mkdtemp(prefix="confirm-wt-"))
     wt.rmdir()
     meta = {"seed_id": a.seed_id, "property": a.prop, "source": a.source, "needs_to_manifest": a.needs}
+    old = VERIF / "seeded" / a.seed_id / "meta.json"
+    if a.detect_only and old.exists():
+        meta = json.loads(old.read_text())
+        patch = VERIF / "seeded" / a.seed_id / "patch.diff"
     try:
+        if a.detect_only and old.exists():
+            raise StopIteration
         rc, out = sh(f"git -C /repo worktree add -q --detach {wt} HEAD")
         if rc:
             print(out)
@@ -77,7 +84,7 @@ def main():
         work = Path(tempfile.mkdtemp(prefix="confirm-demo-"))
         shutil.copy(demo, work / demo.name)
         for extra in src.iterdir():
-            if extra.is_file() and extra.suffix in (".svg", ".toml", ".png", ".json") :
+            if extra.is_file() and extra.name not in ("patch.diff", "NOTES.md", demo.name) and extra.suffix in (".svg", ".toml", ".png", ".json", ".py", ".fea", ".ttf"):
                 shutil.copy(extra, work / extra.name)
         # demo on the unmodified tree
         rc0, t0 = run_demo(wt, demo, work)
@@ -107,6 +114,8 @@ def main():
         }
         ok = rcc == 0 and stable <= passed and rc0 == 0 and rc1 != 0
         meta["status"] = "confirmed" if ok else "NOT confirmed"
+    except StopIteration:
+        pass
     finally:
         sh(f"git -C /repo worktree remove --force {wt}")
         shutil.rmtree(wt, ignore_errors=True)
@@ -137,8 +146,15 @@ def main():
     meta["detected_by_own_property_check"] = a.prop in det and det[a.prop]["exit"] == 1
     dst = VERIF / "seeded" / a.seed_id
     dst.mkdir(parents=True, exist_ok=True)
+    if a.detect_only and old.exists():
+        (dst / "meta.json").write_text(json.dumps(meta, indent=1))
+        print(json.dumps({k: meta[k] for k in ("seed_id", "status", "detected_by_own_property_check")}), json.dumps(det))
+        return 0
     shutil.copy(patch, dst / "patch.diff")
     shutil.copy(demo, dst / demo.name)
+    for extra in src.iterdir():
+        if extra.is_file() and extra.suffix == ".py" and extra.name != demo.name and not extra.name.startswith(("peek", "colr_walk")):
+            shutil.copy(extra, dst / extra.name)
     if (src / "NOTES.md").exists():
         shutil.copy(src / "NOTES.md", dst / "NOTES.md")
     (dst / "meta.json").write_text(json.dumps(meta, indent=1))
